@@ -65,7 +65,7 @@ def predOfJson (j : Json) : Option Pred :=
 def constOfJson (kind : ConstKind) (j : Json) : Const :=
   { kind := kind, name := optStr j "name", cols := getStrList j "cols", text := getStrD j "text",
     mentions := getStrList j "mentions", pred := predOfJson (getObj j "pred"),
-    rtable := getStrD j "rtable", rcols := getStrList j "rcols" }
+    rtable := getStrD j "rtable", rcols := getStrList j "rcols", unresolvedReferent := getBoolD j "unresolved" }
 
 
 def constToJson (c : Const) : Json :=
@@ -143,7 +143,11 @@ def opOfJson (j : Json) : Option (List BatchOp) :=
   | none => none
   | some o =>
     match getStr j "existing_type_const" with
-    | none => some [o]
+    | none =>
+      -- add_column(Column(..., ForeignKey(..., name=...))): toimpl.add_column forwards the column's FK constraint to add_constraint
+      match getObj j "fk" with
+      | .null => some [o]
+      | f => some [o, .addConstraint (constOfJson .fk f)]
     | some n =>
       let renames := match getStr j "new_name" with
         | some nn => nn != getStrD j "name"
@@ -212,6 +216,9 @@ def handle (op : String) (j : Json) : Option Json :=
          | .null => none
          | cf => some (schemaOfJson cf))
         (failKindOfJson j) (prOfJson j)
+        (match getStr j "schema" with
+         | some sc => sc ++ "_"
+         | none => "")
       some (obj [("recreated", Json.bool out.recreated), ("stmts", strs (out.trace.map stmtTok)),
                  ("outcome", errJson out.err), ("final", dbToJson out.final)])
   | "batch.spec10" =>
